@@ -210,7 +210,7 @@ def run_case(case):
         if slot.get("remote", "-") != "-" and slot.get("cache", "-") != "-" and not case["F"]:
             rname, cname = slot["remote"], slot["cache"]
             rpath = remotes[rname].path
-            for d1 in os.listdir(rpath):
+            for d1 in (os.listdir(rpath) if os.path.isdir(rpath) else []):     # (nothing may have reached it at all)
                 if len(d1) == 2:
                     shutil.rmtree(os.path.join(rpath, d1))
             remote2 = remote_odb(rname)       # (a new process)
@@ -225,7 +225,8 @@ def run_case(case):
             want = {coid, MD5["a/sub/y"], MD5["a/x"]}
             try:
                 p3, f3 = push(collect([idx3], "remote", push=True))
-                have = {d1 + n for d1 in os.listdir(rpath) if len(d1) == 2 for n in os.listdir(os.path.join(rpath, d1))}
+                have = {d1 + n for d1 in (os.listdir(rpath) if os.path.isdir(rpath) else []) if len(d1) == 2
+                        for n in os.listdir(os.path.join(rpath, d1))}
                 events.append({"op": "PushOther", "complete": want <= have, "pushed": int(p3), "failed": int(f3), "exc": ""})
             except Exception as e:  # noqa: BLE001
                 events.append({"op": "PushOther", "complete": False, "pushed": -1, "failed": -1, "exc": type(e).__name__})
